@@ -248,6 +248,39 @@ class Inliner:
     def _is_local(func: FuncInfo, g: FuncInfo) -> bool:
         return func.nested.get(g.name) is g
 
+    def _trivial_props(self, cls) -> Dict[str, str]:
+        """property name -> backing attribute, for the properties of ``cls`` (along its MRO) that are nothing but ``return self._x`` and are overridden nowhere."""
+        cache = self.__dict__.setdefault('_tprops', {})
+        if id(cls) in cache:
+            return cache[id(cls)]
+        out: Dict[str, str] = {}
+        cache[id(cls)] = out
+        for k in cls.mro_classes():
+            for name, f in k.methods.items():
+                if name in out or not f.has_decorator('property') or isinstance(f.node, ast.Lambda):
+                    continue
+                v = accessor_value(f)
+                if (isinstance(v, ast.Attribute) and isinstance(v.value, ast.Name) and v.value.id == 'self' and v.attr != name
+                        and len(self.prog.overrides(cls, name)) == 1 and cls.lookup(name) is f):
+                    out[name] = v.attr
+        return out
+
+    def _trivial_property_reads(self, func: FuncInfo, node: ast.AST) -> Set[str]:
+        """``self.validator`` where ``validator`` is the property ``return self._validator``: the read IS a read of the backing attribute (inside the class
+        itself either spelling is used; the rules are written against the attribute)."""
+        cls = func.owner_class
+        if cls is None:
+            return set()
+        tp = self._trivial_props(cls)
+        done: Set[str] = set()
+        if not tp:
+            return done
+        for n in ast.walk(node):
+            if isinstance(n, ast.Attribute) and isinstance(n.ctx, ast.Load) and isinstance(n.value, ast.Name) and n.value.id == 'self' and n.attr in tp:
+                done.add(n.attr)
+                n.attr = tp[n.attr]
+        return done
+
     def _local_function(self, func: FuncInfo, fn: ast.expr) -> Optional[FuncInfo]:
         """``fn`` names a function defined directly inside ``func`` that is only ever *called* there (never passed on, stored or
         returned): such a local function is a block of the enclosing function with a name, and is inlined like a private helper;
@@ -625,9 +658,14 @@ class Inliner:
                     cand = True
                     break
         # ... and no conditional expression as the whole value of an assignment / return (lowered to if/else in the view)
-        lower = any(isinstance(n, (ast.Assign, ast.AnnAssign, ast.Return)) and isinstance(getattr(n, 'value', None), ast.IfExp) for n in ast.walk(func.node))
+        lower = any(isinstance(n, (ast.Assign, ast.AnnAssign, ast.Return)) and isinstance(getattr(n, 'value', None), ast.IfExp) for n in ast.walk(func.node)) or any(
+            isinstance(n, (ast.Expr, ast.Assign, ast.Return)) and isinstance(getattr(n, 'value', None), ast.Call) and any(
+                isinstance(x, ast.IfExp) for x in list(n.value.args) + [k.value for k in n.value.keywords]) for n in ast.walk(func.node))
         aliases = _pure_aliases(func.node)
-        if not cand and not lower and not aliases:
+        has_prop = func.owner_class is not None and any(isinstance(n, ast.Attribute) and isinstance(n.ctx, ast.Load) and isinstance(n.value, ast.Name) and n.value.id == 'self'
+                                                        and n.attr in self._trivial_props(func.owner_class) for n in ast.walk(func.node))
+        maybe_rev = any(isinstance(n, ast.Assign) and len(n.targets) == 1 and isinstance(n.targets[0], ast.Attribute) and isinstance(n.value, ast.Name) for n in ast.walk(func.node))
+        if not cand and not lower and not aliases and not has_prop and not maybe_rev:
             return func
         before = len(self.log)
         node = copy.deepcopy(func.node)
@@ -653,6 +691,12 @@ class Inliner:
         if al:
             _propagate(node, al)
             self.log.append(f'{func.qualname}: local aliases read through ({", ".join(sorted(al))})')
+        rev = _reverse_aliases(node)
+        if rev:
+            self.log.append(f'{func.qualname}: locals stored into an attribute read as that attribute ({", ".join(sorted(rev))})')
+        props = self._trivial_property_reads(func, node)
+        if props:
+            self.log.append(f'{func.qualname}: trivial properties read through ({", ".join(sorted(props))})')
         if len(self.log) == before:
             return func
         # a local function all of whose calls were inlined is no longer referenced: its definition goes (rules that walk the
@@ -699,6 +743,29 @@ def _lower_ifexp(stmts: List[ast.stmt]) -> List[ast.stmt]:
             ast.copy_location(new, s)
             out.append(new)
             continue
+        # a conditional expression as ONE argument of the statement's call, callee and the other arguments being plain names / attribute chains (nothing whose
+        # evaluation could be reordered observably):  ``f(x, a if c else b)``  ->  ``if c: f(x, a) / else: f(x, b)``
+        call = v if isinstance(v, ast.Call) else None
+        if isinstance(s, (ast.Expr, ast.Assign, ast.Return)) and call is not None and (_simple(call.func)):
+            slots = [('args', i) for i in range(len(call.args))] + [('keywords', i) for i in range(len(call.keywords))]
+            vals = [call.args[i] if k == 'args' else call.keywords[i].value for k, i in slots]
+            ife = [j for j, x in enumerate(vals) if isinstance(x, ast.IfExp)]
+            if len(ife) == 1 and all(_simple(x) or isinstance(x, ast.Constant) for j, x in enumerate(vals) if j != ife[0]):
+                kind, idx = slots[ife[0]]
+                ie = vals[ife[0]]
+
+                def variant(val):
+                    s2 = copy.deepcopy(s)
+                    c2 = s2.value
+                    if kind == 'args':
+                        c2.args[idx] = copy.deepcopy(val)
+                    else:
+                        c2.keywords[idx].value = copy.deepcopy(val)
+                    return s2
+                new = ast.If(test=ie.test, body=_lower_ifexp([variant(ie.body)]), orelse=_lower_ifexp([variant(ie.orelse)]))
+                ast.copy_location(new, s)
+                out.append(new)
+                continue
         for fld in ('body', 'orelse', 'finalbody'):
             if hasattr(s, fld) and isinstance(getattr(s, fld), list) and getattr(s, fld) and isinstance(getattr(s, fld)[0], ast.stmt):
                 setattr(s, fld, _lower_ifexp(getattr(s, fld)))
@@ -791,15 +858,32 @@ def _pure_aliases(fn: ast.AST) -> Dict[str, ast.expr]:
     pos: Dict[int, int] = {}
     first_store: Dict[str, int] = {}
 
-    def number(nodes, k=[0]):
+    attr_store_pos: Dict[str, List[int]] = {}
+    last_load: Dict[str, int] = {}
+    in_loop: Set[str] = set()
+
+    def number(nodes, k=[0], loop=False):
         for n in nodes:
             k[0] += 1
             pos[id(n)] = k[0]
             if isinstance(n, ast.Name) and isinstance(n.ctx, (ast.Store, ast.Del)):
                 first_store.setdefault(n.id, k[0])
-            number(ast.iter_child_nodes(n), k)
+            elif isinstance(n, ast.Name):
+                last_load[n.id] = k[0]
+                if loop:
+                    in_loop.add(n.id)
+            elif isinstance(n, ast.Attribute) and isinstance(n.ctx, (ast.Store, ast.Del)):
+                attr_store_pos.setdefault(n.attr, []).append(k[0])
+            number(ast.iter_child_nodes(n), k, loop or isinstance(n, (ast.For, ast.While, ast.AsyncFor)))
     number(fn.body)
+
+    def stores_only_after_uses(name: str, attrs: List[str]) -> bool:
+        """``x = self._a; ... x(...) ...; self._a = None``: every store into an attribute of the chain comes after the last read of the alias (straight-line code)."""
+        ps = [p_ for a_ in attrs for p_ in attr_store_pos.get(a_, [])]
+        return bool(ps) and name not in in_loop and name in last_load and min(ps) > last_load[name]
     for st in ast.walk(fn):
+        if isinstance(st, ast.NamedExpr) and isinstance(st.target, ast.Name):
+            st = ast.Assign(targets=[st.target], value=st.value)   # ``(x := self._a) is not None``: the same binding, made inside an expression
         if isinstance(st, ast.Assign) and len(st.targets) == 1 and isinstance(st.targets[0], ast.Name):
             v = st.value
             while isinstance(v, ast.Call) and isinstance(v.func, ast.Name) and v.func.id == 'cast' and len(v.args) == 2:
@@ -811,7 +895,8 @@ def _pure_aliases(fn: ast.AST) -> Dict[str, ast.expr]:
             name = st.targets[0].id
             if ((attrs or (isinstance(root, ast.Name) and root.id not in ('None', 'True', 'False'))) and isinstance(root, ast.Name) and stores.get(name) == 1 and name not in params and name not in declared
                     and (stores.get(root.id, 0) == 0 or (stores.get(root.id) == 1 and attrs and root.id not in params and first_store.get(root.id, 1 << 30) < pos.get(id(st.value), 0)))
-                    and root.id not in declared and root.id != name and not (set(attrs) & attr_stores)):
+                    and root.id not in declared and root.id != name and (not (set(attrs) & attr_stores) or (stores_only_after_uses(name, attrs) and not any(
+                        isinstance(c_, ast.Call) and isinstance(c_.func, ast.Name) and c_.func.id in ('setattr', 'delattr') for c_ in ast.walk(fn))))):
                 cands[name] = v
     return cands
 
@@ -822,6 +907,11 @@ def _propagate(fn: ast.AST, aliases: Dict[str, ast.expr]) -> None:
             if isinstance(node.ctx, ast.Load) and node.id in aliases:
                 return ast.copy_location(copy.deepcopy(aliases[node.id]), node)
             return node
+
+        def visit_NamedExpr(self, node: ast.NamedExpr):
+            if isinstance(node.target, ast.Name) and node.target.id in aliases:
+                return self.visit(node.value)   # the name is read through everywhere: the binding expression is its value
+            return self.generic_visit(node)
     for i, st in enumerate(fn.body):
         fn.body[i] = T().visit(st)
     ast.fix_missing_locations(fn)
@@ -850,3 +940,59 @@ def _first_evaluated_call(e: ast.expr):
             parent, field, cur = cur, 'func', cur.func
         else:
             return None
+
+
+def _reverse_aliases(fn: ast.AST) -> Set[str]:
+    """``box = {}`` ; ``self._x = box`` ; ``box[k] = v``: once the local has been stored into the attribute the two name one object; if neither is re-bound
+    afterwards in this function, later reads of the local are rewritten (in place) as reads of the attribute.  Returns the names rewritten."""
+    if isinstance(fn, ast.Lambda):
+        return set()
+    stores: Dict[str, int] = {}
+    attr_stores: Dict[str, int] = {}
+    pos: Dict[int, int] = {}
+    loops: List[Tuple[int, int]] = []
+
+    def number(nodes, k=[0]):
+        for n in nodes:
+            k[0] += 1
+            pos[id(n)] = k[0]
+            start = k[0]
+            if isinstance(n, ast.Name) and isinstance(n.ctx, (ast.Store, ast.Del)):
+                stores[n.id] = stores.get(n.id, 0) + 1
+            elif isinstance(n, ast.Attribute) and isinstance(n.ctx, (ast.Store, ast.Del)):
+                attr_stores[n.attr] = attr_stores.get(n.attr, 0) + 1
+            number(ast.iter_child_nodes(n), k)
+            if isinstance(n, (ast.For, ast.While, ast.AsyncFor)):
+                loops.append((start, k[0]))
+    number(fn.body)
+    a = fn.args
+    params = {x.arg for x in a.posonlyargs + a.args + a.kwonlyargs}
+    done: Set[str] = set()
+    for st in list(ast.walk(fn)):
+        if not (isinstance(st, ast.Assign) and len(st.targets) == 1 and isinstance(st.targets[0], ast.Attribute) and isinstance(st.value, ast.Name)):
+            continue
+        tgt, name = st.targets[0], st.value.id
+        if not (isinstance(tgt.value, ast.Name) and tgt.value.id == 'self') or name in params or stores.get(name) != 1 or attr_stores.get(tgt.attr) != 1:
+            continue
+        at = pos[id(st)]
+        if any(lo <= at <= hi for lo, hi in loops):
+            continue
+        # the local must hold a fresh container / object (a literal or a constructor call), so that nobody else can re-bind the attribute's object
+        defs = [d for d in ast.walk(fn) if isinstance(d, (ast.Assign, ast.AnnAssign)) and isinstance(d.targets[0] if isinstance(d, ast.Assign) else d.target, ast.Name)
+                and (d.targets[0] if isinstance(d, ast.Assign) else d.target).id == name and d.value is not None]
+        if len(defs) != 1 or not isinstance(defs[0].value, (ast.Dict, ast.List, ast.Set, ast.Call, ast.ListComp, ast.DictComp, ast.SetComp)):
+            continue
+        for n in ast.walk(fn):
+            for field, val in ast.iter_fields(n):
+                items = val if isinstance(val, list) else [val]
+                for i, ch in enumerate(items):
+                    if isinstance(ch, ast.Name) and ch.id == name and isinstance(ch.ctx, ast.Load) and pos.get(id(ch), 0) > at and ch is not st.value:
+                        new = ast.copy_location(ast.Attribute(value=ast.Name(id='self', ctx=ast.Load()), attr=tgt.attr, ctx=ast.Load()), ch)
+                        if isinstance(val, list):
+                            val[i] = new
+                        else:
+                            setattr(n, field, new)
+                        done.add(name)
+    if done:
+        ast.fix_missing_locations(fn)
+    return done
